@@ -961,6 +961,13 @@ func (f *Frame) contractCallSig(instr ssa.Instruction, key string, sig *types.Si
 		t := f.evalBool(cl.E, env2)
 		f.assume(t, "postcondition of "+key)
 	}
+	if fc.Opts["deterministic"] != "" && res != nil {
+		det := f.detApply(key, args)
+		dl, rl := det.leaves(), res.leaves()
+		for i := range dl {
+			f.assume(Eq(rl[i], dl[i]), "deterministic abstraction of "+key)
+		}
+	}
 	setResult(res)
 }
 
